@@ -1067,15 +1067,18 @@ class Workflow(Trellis):
         This makes it weaker than the exact-target warning:
         it can stay silent for a directory target that ended up elevating no step at all.
         """
+        # The project root contains every label, which the prefix range cannot express:
+        # labels are root-relative and carry no "./" prefix (see `_is_justified_without_node`).
+        is_root = dir_path == "./"
         row = self.db.execute(
             "SELECT EXISTS ("
             "SELECT 1 FROM node AS onode "
             "JOIN file AS ofile ON ofile.node = onode.i "
             "JOIN dependency AS depo ON depo.sink = onode.i "
             f"WHERE onode.kind = '{File.kind()}' "
-            "AND onode.label >= ? AND onode.label < ? "
-            f"AND {REGULAR_OUTPUT_WHERE})",
-            (dir_path, dir_range_upper(dir_path)),
+            + ("" if is_root else "AND onode.label >= ? AND onode.label < ? ")
+            + f"AND {REGULAR_OUTPUT_WHERE})",
+            () if is_root else (dir_path, dir_range_upper(dir_path)),
         ).fetchone()
         return bool(row[0])
 
